@@ -133,8 +133,17 @@ def run_in_child(fn, job, timeout):
 
 def _zygote_main(conn: Connection, module: str, timeout: float):
     mod = importlib.import_module(module)
+    broken = None
     if hasattr(mod, 'warmup'):
-        mod.warmup()
+        # Rehearse the warm-up in a throw-away child first: if the tree under test crashes or hangs already there, every
+        # job of this zygote is answered with that abnormal end (a violation for the engine to classify), instead of the
+        # zygote dying and the harness looking broken.
+        probe = run_in_child(lambda job, io: (io.progress({'site': 'warmup'}), mod.warmup(), {'violations': [], 'digest': 'warmup'})[2],
+                             {'warmup': True}, max(timeout, 120))
+        if probe.get('abnormal') or probe.get('harness_error'):
+            broken = probe
+        else:
+            mod.warmup()
     gc.collect()
     gc.freeze()
     gc.disable()
@@ -147,6 +156,9 @@ def _zygote_main(conn: Connection, module: str, timeout: float):
         if job is None:
             break
         t = job.pop('_timeout', None) or timeout
+        if broken is not None:
+            conn.send(dict(broken, job=job, progress={'site': 'warmup'}))
+            continue
         try:
             out = run_in_child(fn, job, t)
         except BaseException:  # noqa: BLE001
